@@ -425,11 +425,16 @@ class C09(Property):
         "Flatland.C09.Proofs.C09_fullMembers_fails",
     ]
     level_text = "proof (partial)"
-    level_note = ("step_refines/run_refines: refinement to the CPython list functions for every listed call, over the "
-                  "(value,u) abstraction and scalar (Integer/String) member schemas; positional_step for every call and "
-                  "every member schema; the value-only reading (C09_Full) and arbitrary member schemas "
-                  "(C09_FullMembers) are refuted by witnesses (KF-C09-a, KF-C09-b); Dict/List members, set_default and "
-                  "sort() without key rest on correspondence + the real-list oracle")
+    level_note = ("THEOREM (partial): step_refines/run_refines — refinement to the CPython list functions, over the (value,u) "
+                  "abstraction, ONLY for Integer/String member schemas and plain arguments in {None,int,str} (or Elements "
+                  "of the member schema), for append/extend/+=/insert/item+slice assignment/item+slice deletion/pop/"
+                  "remove/reverse/clear/sort(key in {u,len u})/set(list)/len/getitem/getslice/in/index/count; run_refines "
+                  "needs EVERY call of the history in that set (a history containing set_default, key-less sort, "
+                  "set(non-list) or *= is not covered). positional_step — every call incl. *=, clear, set, set_default, "
+                  "every member schema. REFUTED readings: value-only (C09_Full, KF-C09-a), container members "
+                  "(C09_FullMembers, KF-C09-b). ORACLE ONLY: Dict/List members, set_default, *=, key-less sort, set_flat, "
+                  "results of set/set_default/construction routes (checked against the adapted input by the oracle), "
+                  "model paths answering `unsupported`")
     technique = "refinement proof (Lean 4) + differential testing against the implementation and a real Python list"
     trusted_base = [
         "CPython list semantics (index normalisation, PySlice_AdjustIndices, slice assignment/deletion, insert "
@@ -443,7 +448,9 @@ class C09(Property):
     assumptions = [
         "sort keys range over the family {u, len(u)} with and without reverse; sort() without key raises TypeError "
         "as a list of elements does (recorded non-defect) and is not compared with the reference list",
-        "`*=`, `+` and `*` are outside the property's operation list",
+        "`*=` (Sequence.__imul__, commit 33a67e3: fresh members from the members' values) is modelled and compared; "
+        "`+` and `*` return plain lists and are not element operations",
+        "re-inserting an element that is already a member (`l.append(l[0])`) is aliasing, outside the quantifier",
         "Element arguments are fresh or detached elements of the member schema (no aliasing)",
         "MultiValue.value is the first member's value (documented), the list clause is checked on iteration",
     ]
@@ -451,6 +458,7 @@ class C09(Property):
             "None/negative/out-of-range bounds and steps in {None,1,2,3,-1,-2,0}) on a List / Array / MultiValue of "
             "Integer, String or Dict members, started by a constructor/set/set_default/from_defaults route; arguments "
             "are plain values (valid, unadaptable, None), fresh Elements, or Elements detached earlier (pool); "
+            "Cases the Lean model does not cover (set_flat/from_flat, model paths answering unsupported) are marked oracle-only before the run and are not counted as validated traces (tag model=oracle-only). "
             "non-trivial = at least 3 calls changed the sequence or raised")
     quick_n = 40000
     thorough_n = 300000
